@@ -244,7 +244,7 @@ func HC10_Illegal() {
 		vAssume(!(prof == 1 && capInc == 2)) // thorough: 3 of the 4 configurations (path budget)
 	}
 	x := hNew(prof, 6, capInc, relInc)
-	x.prefix([6]int{1, 3, 4, 6, 8, 9}[vChoice("prefix", 6)])
+	x.prefix([7]int{1, 3, 4, 6, 8, 9, 15}[vChoice("prefix", 7)])
 	rounds := 1 + vTier()
 	for r := 0; r < rounds; r++ {
 		d0 := x.digest()
